@@ -63,6 +63,9 @@ pub enum Act {
     /// every header byte in [0, 8) at its boundary values combined with every aligned 32-bit field
     /// in [4, 24) at count-like values: sizes that are only dangerous when two fields agree
     HeaderPairs,
+    /// CPC only: the surprising-value table re-encoded (valid entropy coding) around pair lists a
+    /// writer never produces - columns 56..63, rows at and beyond k, duplicates, extra entries
+    CpcPairs,
     /// head of this image + tail of another image of the same family (different mode)
     Splice { other: Spec, cut: u32 },
     /// purely random buffer
@@ -702,6 +705,9 @@ impl Scenario for C14 {
         if campaigns & 4 != 0 && campaigns & 8 != 0 {
             acts.push(Act::HeaderPairs);
         }
+        if fam.starts_with("cpc") && campaigns & 6 != 0 {
+            acts.push(Act::CpcPairs);
+        }
         if campaigns & 8 != 0 {
             let w = *rng.pick(&[2u8, 4, 8]);
             acts.push(Act::FieldSetRange { from: 0, to: l.min(64), width: w });
@@ -845,9 +851,9 @@ impl Scenario for C14 {
                     st.nontrivial = true;
                 }
                 Act::HeaderPairs => {
-                    let counts: [u32; 14] = [0, 1, 7, 127, 255, 4095, 32767, 65535, (1 << 20) + 1, (1 << 24) + 1, (1 << 26) - 1, 1 << 28, i32::MAX as u32, u32::MAX];
+                    let counts: [u32; 10] = [0, 1, 127, 4095, 32767, 65535, (1 << 24) + 1, (1 << 26) - 1, i32::MAX as u32, u32::MAX];
                     for bpos in 0..8usize.min(img.len()) {
-                        for bval in [1u8, 2, 3, 4, 7, 8, 10, 12, 16, 21, 26, 31, 63, 0xff] {
+                        for bval in [1u8, 2, 3, 7, 8, 12, 16, 21, 26, 0xff] {
                             for fpos in (4..24usize).step_by(4) {
                                 if fpos + 4 > img.len() || (fpos..fpos + 4).contains(&bpos) {
                                     continue;
@@ -860,6 +866,65 @@ impl Scenario for C14 {
                                     deliver!(fam, &b, &format!("HeaderPair byte {bpos}={bval:#x} field {fpos}={c:#x}"), st)?;
                                 }
                             }
+                        }
+                    }
+                    st.nontrivial = true;
+                }
+                Act::CpcPairs => {
+                    let Ok(parts) = crate::speccodec::cpc::split_table(&img) else { continue };
+                    use crate::speccodec::cpc::with_pairs;
+                    let k = 1u32 << parts.lg_k;
+                    let n = parts.pairs.len();
+                    if n == 0 {
+                        continue;
+                    }
+                    // the encoder is validated on every image: the identity re-encoding must be accepted
+                    match with_pairs(&img, &parts, &parts.pairs) {
+                        Some(b) => {
+                            let ok = lib_call("CpcSketch::deserialize(identity re-encoding)", || CpcSketch::deserialize(&b).is_ok())?;
+                            if !ok {
+                                return Err(Violation::new("harness.cpc_reencode", format!("identity re-encoding of a valid CPC table was rejected ({} pairs, lg_k {})", n, parts.lg_k)));
+                            }
+                        }
+                        None => return Err(Violation::new("harness.cpc_reencode", "identity re-encoding failed".to_string())),
+                    }
+                    let mut variants: Vec<(String, Vec<(u32, u8)>)> = vec![];
+                    let last = parts.pairs[n - 1];
+                    // the last pair moved to every column of its own row, of the last row, and of rows at / beyond k
+                    for row in [last.0, k - 1, k, k + 1, 2 * k - 1] {
+                        for col in 0..64u8 {
+                            let mut p = parts.pairs.clone();
+                            p[n - 1] = (row, col);
+                            variants.push((format!("last pair -> ({row},{col})"), p));
+                        }
+                    }
+                    // an extra pair appended (declared count grows with it)
+                    for (row, col) in [(last.0, last.1), (last.0, 63), (k - 1, 0), (k - 1, 55), (k - 1, 56), (k - 1, 63), (k, 0)] {
+                        let mut p = parts.pairs.clone();
+                        p.push((row, col));
+                        variants.push((format!("appended ({row},{col})"), p));
+                    }
+                    // interior pairs: duplicate, raise the column to the edge values, drop
+                    let picks: Vec<usize> = (0..n).step_by((n / 12).max(1)).collect();
+                    for &i in &picks {
+                        let mut p = parts.pairs.clone();
+                        p.insert(i, parts.pairs[i]);
+                        variants.push((format!("pair {i} duplicated"), p));
+                        for col in [55u8, 56, 57, 63] {
+                            let mut p = parts.pairs.clone();
+                            p[i].1 = col;
+                            variants.push((format!("pair {i} column -> {col}"), p));
+                        }
+                        let mut p = parts.pairs.clone();
+                        p.remove(i);
+                        if !p.is_empty() {
+                            variants.push((format!("pair {i} dropped"), p));
+                        }
+                    }
+                    for (what, p) in variants {
+                        if let Some(b) = with_pairs(&img, &parts, &p) {
+                            st.fault("cpc_pairs_reencoded");
+                            deliver!(fam, &b, &format!("CpcPairs {what} (lg_k {}, {} pairs, window {})", parts.lg_k, p.len(), parts.has_window), st)?;
                         }
                     }
                     st.nontrivial = true;
